@@ -444,6 +444,7 @@ class Scanner:
 
         # Skip '^'.
         self.pos += 1
+        self.skip_trivia()
         self.start = self.pos
 
         if self.peek() != '"':
